@@ -107,6 +107,9 @@ def run_cli(job):
                 with open(p, "wb") as f:
                     f.write(content)
         before = snapshot(src)
+        from pathlib import Path
+        tp = Path(os.path.join(src, target))
+        order = [os.path.relpath(str(q), src) for q in tp.rglob("*.css")] if tp.is_dir() else [target]
         os.chdir(work)
         runner = CliRunner()
         res = runner.invoke(main, [os.path.join(src, target)] + list(args))
@@ -119,7 +122,7 @@ def run_cli(job):
             stdout, stderr = res.output, ""
         out = {"exit": res.exit_code, "stdout": stdout, "stderr": stderr,
                "exception": (type(res.exception).__name__ + ": " + str(res.exception)[:200]) if res.exception and not isinstance(res.exception, SystemExit) else None,
-               "before": before, "after": after, "work": workfiles}
+               "before": before, "after": after, "work": workfiles, "order": order}
         rep = workfiles.get("cm_colors_report.html")
         if rep:
             c = Cards(); c.feed(rep[1].decode("utf-8", "replace")); out["cards"] = c.cards
